@@ -1,4 +1,6 @@
+import CssVerif.Model.OutEffectDom
 import CssVerif.Lemmas.OutDeclLayout
+import CssVerif.Lemmas.OutEffectDecl
 /-!
 # T6.3 — the content filters at their points of use are DOM filters
 -/
@@ -84,28 +86,14 @@ theorem valid_property_passes (p : Prefs) : validOk p true = true := by
 
 /-! ### rules -/
 
-/-- `doDecl` returned the empty text -/
-def isEmptyOk : Except Err Cps → Bool
-  | .ok t => t.isEmpty
-  | .error _ => false
-
-/-- a rule that the preference record suppresses as a whole: a comment when comments are dropped, an unknown at-rule
-when unknown at-rules are dropped, a style rule whose declaration block is written as the empty text when empty rules
-are dropped (`lv` is the nesting level at which the rule is serialized) -/
-def Rule.dropped (p : Prefs) (lv : Nat) : Rule → Bool
-  | .comment _ => !p.keepComments
-  | .unknown (.mk _ _ _) => !p.keepUnknownAtRules
-  | .style _ _ _ st => !p.keepEmptyRules && isEmptyOk (doDecl p (lv + 1) st)
-  | _ => false
-
-theorem doRule_dropped (p : Prefs) (lv sl : Nat) (r : Rule) (hd : r.dropped p lv = true) :
+theorem doRule_dropped (p : Prefs) (lv sl : Nat) (r : Rule) (hd : r.dropped p lv sl = true) :
     doRule p lv sl r = pure [] := by
-  cases r <;> simp only [Rule.dropped] at hd <;> try (exact absurd hd (by decide))
-  · rename_i t
-    have : p.keepComments = false := by simpa using hd
+  cases r with
+  | comment t =>
+    have : p.keepComments = false := by simpa [Rule.dropped] using hd
     simp [doRule, doComment, this]
-  · rename_i wf swf sels style
-    simp only [Bool.and_eq_true, Bool.not_eq_true'] at hd
+  | style wf swf sels style =>
+    simp only [Rule.dropped, Bool.and_eq_true, Bool.not_eq_true'] at hd
     obtain ⟨hk, he⟩ := hd
     simp only [doRule]
     split
@@ -117,31 +105,67 @@ theorem doRule_dropped (p : Prefs) (lv sl : Nat) (r : Rule) (hd : r.dropped p lv
         have : t = [] := by simpa [isEmptyOk] using he
         subst this
         simp [styleTail, hk]
-  · rename_i u
+  | unknown u =>
     cases u with
     | mk wf atk items =>
       have : p.keepUnknownAtRules = false := by simpa [Rule.dropped] using hd
       simp [doRule, doURule, this]
+  | variables wf atk kw items vars =>
+    have : p.resolveVariables = true := by simpa [Rule.dropped] using hd
+    simp [doRule, this]
+  | media mwf atk kw media name items rules =>
+    simp only [Rule.dropped, Bool.and_eq_true, Bool.not_eq_true'] at hd
+    obtain ⟨hk, he⟩ := hd
+    simp only [doRule]
+    split
+    · rfl
+    · simp only [atKeyword, pure, Except.pure]
+      cases hdd : doRules p lv sl rules with
+      | error e => rw [hdd] at he; simp at he
+      | ok texts =>
+        rw [hdd] at he
+        simp only at he ⊢
+        simp [mediaTail, hk, he]
+  | charset _ _ => simp [Rule.dropped] at hd
+  | import_ _ _ _ _ _ => simp [Rule.dropped] at hd
+  | namespace_ _ _ _ _ _ _ => simp [Rule.dropped] at hd
+  | page _ _ _ _ _ _ => simp [Rule.dropped] at hd
+  | margin _ _ _ _ => simp [Rule.dropped] at hd
+  | fontface _ _ _ _ _ => simp [Rule.dropped] at hd
 
-mutual
-/-- the documented effect of `keepComments` / `keepUnknownAtRules` / `keepEmptyRules` on the rule tree: the suppressed
-rules are removed, at every nesting depth -/
-def effectRule (p : Prefs) (lv : Nat) : Rule → Rule
-  | .media a b c d e f rules => .media a b c d e f (effectRules p lv rules)
-  | .page a b c d e rules => .page a b c d e (effectRules p lv rules)
-  | .comment t => .comment t
-  | .charset a b => .charset a b
-  | .import_ a b c d e => .import_ a b c d e
-  | .namespace_ a b c d e f => .namespace_ a b c d e f
-  | .margin a b c d => .margin a b c d
-  | .fontface a b c d e => .fontface a b c d e
-  | .style a b c d => .style a b c d
-  | .unknown r => .unknown r
-  | .variables a b c d e => .variables a b c d e
-def effectRules (p : Prefs) (lv : Nat) : List Rule → List Rule
-  | [] => []
-  | r :: t => if r.dropped p lv then effectRules p lv t else effectRule p lv r :: effectRules p lv t
-end
+/-! ### the leaf preferences of the rule level as DOM rewrites -/
+
+theorem importCalls_hrefEffect (p : Prefs) (hs : Bool) (its : List EItem) :
+    importCalls p (hrefEffect p hs) its = importCalls p hs its := by
+  unfold importCalls hrefEffect
+  congr 1
+  funext it
+  by_cases h1 : p.importHrefFormat == some s_string <;> by_cases h2 : p.importHrefFormat != some s_uri <;>
+    simp [s_string, s_uri] at h1 h2 <;> simp [h1, h2, s_string, s_uri]
+
+theorem atKeyword_kwEffect (p : Prefs) (atk : Cps) (kw : Option Cps) :
+    atKeyword p atk (kwEffect p atk kw) = atKeyword p atk kw := by
+  unfold atKeyword kwEffect
+  cases p.defaultAtKeyword <;> rfl
+
+theorem varDeclCalls_nameEffect (p : Prefs) (lv : Nat) : ∀ vars : List VItem,
+    varDeclCalls p lv (vars.map (VItem.nameEffect p)) = varDeclCalls p lv vars
+  | [] => rfl
+  | it :: rest => by
+    have ih := varDeclCalls_nameEffect p lv rest
+    have he : (rest.map (VItem.nameEffect p)).isEmpty = rest.isEmpty := by cases rest <;> rfl
+    cases it with
+    | var name nname v =>
+      simp only [List.map_cons, varDeclCalls, VItem.nameEffect, ih, he, serObj_effObj]
+      cases p.normalizedVarNames <;> rfl
+    | comment t => simp only [List.map_cons, varDeclCalls, VItem.nameEffect, ih]
+    | other ty o => simp only [List.map_cons, varDeclCalls, VItem.nameEffect, ih]
+
+theorem doVarDecl_nameEffect (p : Prefs) (lv : Nat) (vars : List VItem) :
+    doVarDecl p lv (vars.map (VItem.nameEffect p)) = doVarDecl p lv vars := by
+  unfold doVarDecl
+  have he : (vars.map (VItem.nameEffect p)).isEmpty = vars.isEmpty := by cases vars <;> rfl
+  rw [he, varDeclCalls_nameEffect]
 
 def nonEmptyTexts (l : List Cps) : List Cps := l.filter fun t => !t.isEmpty
 
@@ -183,9 +207,9 @@ def SameTexts : Except Err (List Cps) → Except Err (List Cps) → Prop
 mutual
 /-- **T6.3 (rules).** Removing the suppressed rules from the DOM (at every depth) does not change what is written:
 the filters at the point of use ARE that DOM transformation — for every preference record. -/
-theorem doRule_effect (p : Prefs) (lv sl : Nat) : ∀ r : Rule, doRule p lv sl (effectRule p lv r) = doRule p lv sl r
+theorem doRule_effect (p : Prefs) (lv sl : Nat) : ∀ r : Rule, doRule p lv sl (effectRule p lv sl r) = doRule p lv sl r
   | .media mwf atk kw media name items rules => by
-    simp only [effectRule, doRule]
+    simp only [effectRule, doRule, atKeyword_kwEffect]
     split
     · rfl
     · cases atKeyword p atk kw with
@@ -194,7 +218,7 @@ theorem doRule_effect (p : Prefs) (lv sl : Nat) : ∀ r : Rule, doRule p lv sl (
         simp only
         have ih := doRules_effect p lv sl rules
         revert ih
-        generalize doRules p lv sl (effectRules p lv rules) = A
+        generalize doRules p lv sl (effectRules p lv sl rules) = A
         generalize doRules p lv sl rules = B
         intro ih
         cases A <;> cases B <;> simp only [SameTexts] at ih
@@ -202,10 +226,10 @@ theorem doRule_effect (p : Prefs) (lv sl : Nat) : ∀ r : Rule, doRule p lv sl (
         · simp only [pure, Except.pure]
           rw [mediaTail_nonEmpty p lv k _ name _ ih]
   | .page wf atk kw sel style rules => by
-    simp only [effectRule, doRule]
+    simp only [effectRule, doRule, atKeyword_kwEffect, doDecl_effectDecl]
     have ih := doRules_effect p lv sl rules
     revert ih
-    generalize doRules p lv sl (effectRules p lv rules) = A
+    generalize doRules p lv sl (effectRules p lv sl rules) = A
     generalize doRules p lv sl rules = B
     intro ih
     cases A <;> cases B <;> simp only [SameTexts] at ih
@@ -216,15 +240,18 @@ theorem doRule_effect (p : Prefs) (lv sl : Nat) : ∀ r : Rule, doRule p lv sl (
       simp only [this]
   | .comment _ => rfl
   | .charset _ _ => rfl
-  | .import_ _ _ _ _ _ => rfl
-  | .namespace_ _ _ _ _ _ _ => rfl
-  | .margin _ _ _ _ => rfl
-  | .fontface _ _ _ _ _ => rfl
-  | .style _ _ _ _ => rfl
+  | .import_ _ _ _ _ _ => by simp only [effectRule, doRule, atKeyword_kwEffect, importCalls_hrefEffect]
+  | .namespace_ _ _ _ _ _ _ => by simp only [effectRule, doRule, atKeyword_kwEffect]
+  | .margin atk _ _ _ => by
+    cases atk with
+    | none => rfl
+    | some a => simp only [effectRule, doRule, kwEffectO, atKeyword_kwEffect, doDecl_effectDecl]
+  | .fontface _ _ _ _ _ => by simp only [effectRule, doRule, atKeyword_kwEffect, doDecl_effectDecl]
+  | .style _ _ _ _ => by simp only [effectRule, doRule, doDecl_effectDecl]
   | .unknown _ => rfl
-  | .variables _ _ _ _ _ => rfl
+  | .variables _ _ _ _ _ => by simp only [effectRule, doRule, atKeyword_kwEffect, doVarDecl_nameEffect]
 theorem doRules_effect (p : Prefs) (lv sl : Nat) : ∀ rs : List Rule,
-    SameTexts (doRules p lv sl (effectRules p lv rs)) (doRules p lv sl rs)
+    SameTexts (doRules p lv sl (effectRules p lv sl rs)) (doRules p lv sl rs)
   | [] => by simp [effectRules, doRules, SameTexts, pure, Except.pure]
   | r :: rest => by
     have ih := doRules_effect p lv sl rest
@@ -233,7 +260,7 @@ theorem doRules_effect (p : Prefs) (lv sl : Nat) : ∀ rs : List Rule,
     · rename_i hd
       simp only [doRules, doRule_dropped p lv sl r hd, pure, Except.pure]
       revert ih
-      generalize doRules p lv sl (effectRules p lv rest) = A
+      generalize doRules p lv sl (effectRules p lv sl rest) = A
       generalize doRules p lv sl rest = B
       intro ih
       cases A <;> cases B <;> simp only [SameTexts] at ih ⊢
@@ -244,7 +271,7 @@ theorem doRules_effect (p : Prefs) (lv sl : Nat) : ∀ rs : List Rule,
       | ok t =>
         simp only
         revert ih
-        generalize doRules p lv sl (effectRules p lv rest) = A
+        generalize doRules p lv sl (effectRules p lv sl rest) = A
         generalize doRules p lv sl rest = B
         intro ih
         cases A <;> cases B <;> simp only [SameTexts, pure, Except.pure] at ih ⊢
@@ -252,20 +279,16 @@ theorem doRules_effect (p : Prefs) (lv sl : Nat) : ∀ rs : List Rule,
           split <;> simp [ih]
 end
 
-/-- the documented effect of the rule-level content preferences on a sheet -/
-def effectSheet (p : Prefs) (s : Sheet) : Sheet :=
-  { s with rules := effectRules p 0 (s.rules.filter fun r => !nsDropped p s.usedUris r) }
-
-theorem nsDropped_of_effectRule (p : Prefs) (lv : Nat) (used : List (Option Cps)) (r : Rule) :
-    nsDropped p used (effectRule p lv r) = nsDropped p used r := by
+theorem nsDropped_of_effectRule (p : Prefs) (lv sl : Nat) (used : List (Option Cps)) (r : Rule) :
+    nsDropped p used (effectRule p lv sl r) = nsDropped p used r := by
   cases r <;> simp [effectRule, nsDropped]
 
-theorem filter_ns_effectRules (p : Prefs) (lv : Nat) (used : List (Option Cps)) : ∀ rs : List Rule,
+theorem filter_ns_effectRules (p : Prefs) (lv sl : Nat) (used : List (Option Cps)) : ∀ rs : List Rule,
     (∀ r ∈ rs, nsDropped p used r = false) →
-    (effectRules p lv rs).filter (fun r => !nsDropped p used r) = effectRules p lv rs
+    (effectRules p lv sl rs).filter (fun r => !nsDropped p used r) = effectRules p lv sl rs
   | [], _ => by simp [effectRules]
   | r :: rest, hn => by
-    have ih := filter_ns_effectRules p lv used rest (fun x hx => hn x (List.mem_cons_of_mem _ hx))
+    have ih := filter_ns_effectRules p lv sl used rest (fun x hx => hn x (List.mem_cons_of_mem _ hx))
     simp only [effectRules]
     split
     · exact ih
@@ -276,13 +299,13 @@ at-rules, unused namespace rules) removed at every depth serializes to the same 
 theorem doSheet_effect (p : Prefs) (sl : Nat) (s : Sheet) : doSheet p sl (effectSheet p s) = doSheet p sl s := by
   unfold doSheet effectSheet
   simp only
-  rw [filter_ns_effectRules p 0 s.usedUris _ (by
+  rw [filter_ns_effectRules p 0 0 s.usedUris _ (by
     intro r hr
     have := (List.mem_filter.mp hr).2
     simpa using this)]
   have ih := doRules_effect p 0 0 (s.rules.filter fun r => !nsDropped p s.usedUris r)
   revert ih
-  generalize doRules p 0 0 (effectRules p 0 (s.rules.filter fun r => !nsDropped p s.usedUris r)) = A
+  generalize doRules p 0 0 (effectRules p 0 0 (s.rules.filter fun r => !nsDropped p s.usedUris r)) = A
   generalize doRules p 0 0 (s.rules.filter fun r => !nsDropped p s.usedUris r) = B
   intro ih
   cases A <;> cases B <;> simp only [SameTexts] at ih
@@ -291,21 +314,95 @@ theorem doSheet_effect (p : Prefs) (sl : Nat) (s : Sheet) : doSheet p sl (effect
     simp only [ih]
 
 
-theorem effectRule_dropped (p : Prefs) (lv : Nat) (r : Rule) : (effectRule p lv r).dropped p lv = r.dropped p lv := by
-  cases r <;> simp [effectRule, Rule.dropped]
+theorem effectRule_dropped (p : Prefs) (lv sl : Nat) (r : Rule) :
+    (effectRule p lv sl r).dropped p lv sl = r.dropped p lv sl := by
+  cases r with
+  | media mwf atk kw media name items rules =>
+    simp only [effectRule, Rule.dropped]
+    have ih := doRules_effect p lv sl rules
+    revert ih
+    generalize doRules p lv sl (effectRules p lv sl rules) = A
+    generalize doRules p lv sl rules = B
+    intro ih
+    cases A <;> cases B <;> simp only [SameTexts] at ih
+    · rfl
+    · rename_i ts ts'
+      simp only
+      rw [mediaRulesOut_nonEmpty p lv ts, mediaRulesOut_nonEmpty p lv ts', ih]
+  | _ => simp [effectRule, Rule.dropped, doDecl_effectDecl]
 
 /-- no suppressed rule is left at the top level of the transformed rule list -/
-theorem effectRules_none_dropped (p : Prefs) (lv : Nat) : ∀ rs : List Rule,
-    ∀ r ∈ effectRules p lv rs, r.dropped p lv = false
+theorem effectRules_none_dropped (p : Prefs) (lv sl : Nat) : ∀ rs : List Rule,
+    ∀ r ∈ effectRules p lv sl rs, r.dropped p lv sl = false
   | [], r, hr => by simp [effectRules] at hr
   | x :: rest, r, hr => by
     simp only [effectRules] at hr
     split at hr
-    · exact effectRules_none_dropped p lv rest r hr
+    · exact effectRules_none_dropped p lv sl rest r hr
     · rename_i hx
       rcases List.mem_cons.mp hr with rfl | h
       · rw [effectRule_dropped]; simpa using hx
-      · exact effectRules_none_dropped p lv rest r h
+      · exact effectRules_none_dropped p lv sl rest r h
+
+/-! ### the transformed rules are normal: the leaf preferences have nothing left to do on them -/
+
+/-- the literal keyword is the normalised one when `defaultAtKeyword` asks for it -/
+def kwNormal (p : Prefs) (atk : Cps) (kw : Option Cps) : Bool := !p.defaultAtKeyword || kw == some atk
+
+def VItem.nameNormal (p : Prefs) : VItem → Bool
+  | .var name nname _ => !p.normalizedVarNames || name == nname
+  | _ => true
+
+/-- a rule whose own leaves are normal for the record: href type as `importHrefFormat` demands, literal keyword
+normalised under `defaultAtKeyword`, variable names normalised under `normalizedVarNames` -/
+def Rule.leafNormal (p : Prefs) : Rule → Bool
+  | .import_ _ atk kw hs _ => kwNormal p atk kw && hrefEffect p hs == hs
+  | .namespace_ _ atk kw _ _ _ => kwNormal p atk kw
+  | .media _ atk kw _ _ _ _ => kwNormal p atk kw
+  | .page _ atk kw _ _ _ => kwNormal p atk kw
+  | .margin (some atk) kw _ _ => kwNormal p atk kw
+  | .fontface _ atk kw _ _ => kwNormal p atk kw
+  | .variables _ atk kw _ vars => kwNormal p atk kw && vars.all (VItem.nameNormal p)
+  | _ => true
+
+theorem kwNormal_kwEffect (p : Prefs) (atk : Cps) (kw : Option Cps) : kwNormal p atk (kwEffect p atk kw) = true := by
+  unfold kwNormal kwEffect
+  cases p.defaultAtKeyword <;> simp
+
+theorem hrefEffect_idem (p : Prefs) (hs : Bool) : hrefEffect p (hrefEffect p hs) = hrefEffect p hs := by
+  unfold hrefEffect
+  cases (p.importHrefFormat == some s_string) <;> cases (p.importHrefFormat != some s_uri) <;> cases hs <;> rfl
+
+theorem effectRule_leafNormal (p : Prefs) (lv sl : Nat) (r : Rule) : (effectRule p lv sl r).leafNormal p = true := by
+  cases r with
+  | margin atk kw wf st =>
+    cases atk with
+    | none => rfl
+    | some a => simp [effectRule, Rule.leafNormal, kwEffectO, kwNormal_kwEffect]
+  | variables wf atk kw items vars =>
+    simp only [effectRule, Rule.leafNormal, kwNormal_kwEffect, Bool.true_and, List.all_eq_true, List.mem_map]
+    rintro x ⟨v, _, rfl⟩
+    cases v <;> simp only [VItem.nameEffect, VItem.nameNormal]
+    cases p.normalizedVarNames <;> simp
+  | _ => simp [effectRule, Rule.leafNormal, kwNormal_kwEffect, hrefEffect_idem]
+
+/-- on a normal keyword `defaultAtKeyword` is not read: the keyword is written the same under both settings -/
+theorem atKeyword_of_normal (p : Prefs) (b : Bool) (atk : Cps) (kw : Option Cps) (hn : kwNormal p atk kw = true)
+    (hb : p.defaultAtKeyword = true) :
+    atKeyword { p with defaultAtKeyword := b } atk kw = atKeyword p atk kw := by
+  have : kw = some atk := by simpa [kwNormal, hb] using hn
+  subst this
+  cases b <;> simp [atKeyword, hb]
+
+/-- on a normal href type `importHrefFormat` is not read: the calls are those of the record without a format -/
+theorem importCalls_of_normal (p : Prefs) (hs : Bool) (its : List EItem) (hn : hrefEffect p hs = hs) :
+    importCalls { p with importHrefFormat := none } hs its = importCalls p hs its := by
+  unfold importCalls
+  congr 1
+  funext it
+  unfold hrefEffect at hn
+  by_cases h1 : p.importHrefFormat == some s_string <;> by_cases h2 : p.importHrefFormat != some s_uri <;>
+    cases hs <;> simp [s_string, s_uri] at h1 h2 hn <;> simp_all [s_string, s_uri]
 
 /-! ### T6.4c — minified nested `@media` -/
 
